@@ -6,6 +6,7 @@ import (
 	"go/types"
 	"math/big"
 	"regexp"
+	"sort"
 	"strings"
 
 	"golang.org/x/tools/go/ssa"
@@ -373,6 +374,161 @@ func rulesC15(w *World, r *Report) {
 		})
 	}
 	ruleC15R6(w, r, "C15.R6")
+	ruleClientAllocations(w, r, "C15.R8")
+}
+
+// ruleClientAllocations: the functions of cmd that talk to a server (they call net/http.Get, directly or through
+// cmd helpers) allocate only amounts taken from what was actually received: every non-constant make length there is
+// built from len(...) of something and constants. A length taken from a field of the response (Content-Length) or
+// from a parsed header is the server's claim, not the input's size.
+func ruleClientAllocations(w *World, r *Report, id string) {
+	r.Rule(id, "client allocations: in the cmd functions that issue HTTP requests (and the cmd helpers they call) every non-constant make length is built from len(...) and constants only, never from a field of the response or a parsed number", 4)
+	var roots []*ssa.Function
+	for _, f := range cmdFuncs(w) {
+		for _, c := range callsIn(f) {
+			if isCallToPkgFunc(c, "net/http", "Get") || isCallToPkgFunc(c, "net/http", "Post") {
+				roots = append(roots, f)
+				break
+			}
+			if c.Common().IsInvoke() == false {
+				if sc := c.Common().StaticCallee(); sc != nil && sc.Pkg != nil && sc.Pkg.Pkg.Path() == "net/http" && (sc.Name() == "Do" || sc.Name() == "Get") {
+					roots = append(roots, f)
+					break
+				}
+			}
+		}
+	}
+	sort.Slice(roots, func(i, j int) bool { return funcName(roots[i]) < funcName(roots[j]) })
+	for _, root := range roots {
+		scope := []*ssa.Function{root}
+		for g := range moduleReachable(w, []*ssa.Function{root}, nil) {
+			if g != root && g.Pkg == w.Cmd {
+				scope = append(scope, g)
+			}
+		}
+		sort.Slice(scope[1:], func(i, j int) bool { return funcName(scope[1+i]) < funcName(scope[1+j]) })
+		bad := ""
+		var badAt ssa.Instruction
+		n := 0
+		argsOf := func(p *ssa.Parameter) []ssa.Value {
+			var out []ssa.Value
+			idx := -1
+			for i, q := range p.Parent().Params {
+				if q == p {
+					idx = i
+				}
+			}
+			for _, g := range scope {
+				for _, c := range callsIn(g) {
+					if c.Common().StaticCallee() == p.Parent() && idx >= 0 && idx < len(c.Common().Args) {
+						out = append(out, c.Common().Args[idx])
+					}
+				}
+			}
+			return out
+		}
+		for _, f := range scope {
+			eachInstr(f, func(in ssa.Instruction) {
+				var ln ssa.Value
+				switch t := in.(type) {
+				case *ssa.MakeSlice:
+					ln = t.Len
+				case *ssa.MakeMap:
+					ln = t.Reserve
+				case *ssa.MakeChan:
+					ln = t.Size
+				}
+				if ln == nil {
+					return
+				}
+				if _, isC := ln.(*ssa.Const); isC {
+					return
+				}
+				n++
+				if why := lengthNotReceived(ln, map[ssa.Value]bool{}, argsOf); why != "" && bad == "" {
+					bad, badAt = why, in
+				}
+			})
+		}
+		if bad != "" {
+			r.Violate(id, funcName(root)+":sized-by-input", w.instrPos(badAt), "an allocation reachable from "+funcName(root)+" is sized by "+bad+": a response claiming a large size makes the client allocate out of proportion to what it received (or panic in make)")
+		} else {
+			r.OK(id, funcName(root)+":sized-by-input", w.pos(root.Pos()), fmt.Sprintf("%d non-constant make lengths, all built from len(...) and constants", n))
+		}
+	}
+}
+
+// lengthNotReceived: "" when v is built from len(...)/cap(...) results and constants by arithmetic; otherwise the
+// first foreign ingredient.
+func lengthNotReceived(v ssa.Value, seen map[ssa.Value]bool, argsOf func(*ssa.Parameter) []ssa.Value) string {
+	if seen[v] {
+		return ""
+	}
+	seen[v] = true
+	switch t := v.(type) {
+	case *ssa.Const:
+		return ""
+	case *ssa.Convert:
+		return lengthNotReceived(t.X, seen, argsOf)
+	case *ssa.ChangeType:
+		return lengthNotReceived(t.X, seen, argsOf)
+	case *ssa.BinOp:
+		if why := lengthNotReceived(t.X, seen, argsOf); why != "" {
+			return why
+		}
+		return lengthNotReceived(t.Y, seen, argsOf)
+	case *ssa.Phi:
+		for _, e := range t.Edges {
+			if why := lengthNotReceived(e, seen, argsOf); why != "" {
+				return why
+			}
+		}
+		return ""
+	case *ssa.Call:
+		if bi, ok := t.Common().Value.(*ssa.Builtin); ok && (bi.Name() == "len" || bi.Name() == "cap" || bi.Name() == "min") {
+			if bi.Name() == "min" {
+				for _, a := range t.Common().Args {
+					if lengthNotReceived(a, map[ssa.Value]bool{}, argsOf) == "" {
+						return ""
+					}
+				}
+				return "min(...) of foreign values"
+			}
+			return ""
+		}
+		if sc := t.Common().StaticCallee(); sc != nil {
+			return "the result of " + funcName(sc)
+		}
+		return "a call result"
+	case *ssa.UnOp:
+		if t.Op == token.MUL {
+			if fa, ok := t.X.(*ssa.FieldAddr); ok {
+				st := fa.X.Type().Underlying().(*types.Pointer).Elem()
+				fld := st.Underlying().(*types.Struct).Field(fa.Field).Name()
+				return "the field " + namedTypeString(st) + "." + fld
+			}
+			return "a loaded value"
+		}
+		return lengthNotReceived(t.X, seen, argsOf)
+	case *ssa.Parameter:
+		// sized by the caller: the call sites in scope are examined
+		for _, a := range argsOf(t) {
+			if why := lengthNotReceived(a, seen, argsOf); why != "" {
+				return why
+			}
+		}
+		return ""
+	case *ssa.Extract:
+		return lengthNotReceived(t.Tuple, seen, argsOf)
+	}
+	return "a " + fmt.Sprintf("%T", v)
+}
+
+func namedTypeString(t types.Type) string {
+	if n, ok := t.(*types.Named); ok {
+		return n.Obj().Name()
+	}
+	return t.String()
 }
 
 func isLoopHeaderPhi(ph *ssa.Phi) bool {
